@@ -1,30 +1,49 @@
 /*
  * models/bn_model.c -- see bn_model.h.  Used only in groups built WITHOUT --apply-loop-contracts
  * (crypto/crypto_dh.c has no loops); the loops below have bounds that are compile-time constants at every
- * call site (len = 32, 33, 256; BN_VAL_BYTES), so CBMC unwinds them completely.
+ * call site (len = 32, 33, 256; BN_OUT_BYTES), so CBMC unwinds them completely.
  */
 #include <stdlib.h>
 #include <string.h>
 #include "bn_model.h"
 
 struct bn_state g_bn;
-const uint8_t * g_bn_secret_priv;
-const uint8_t * g_bn_secret_rand;
-bn_val_t g_dh_rand_val;
-size_t g_dh_rand_fail;
-size_t g_dh_rand_calls;
 
 int nondet_int(void);
 bn_val_t nondet_bn_val(void);
 
 #define BN_BOUND(c, what) do { __CPROVER_assert(c, "MODEL-BOUND bn_model: " what); __CPROVER_assume(c); } while (0)
 #define BN_CAP	((bn_val_t)1 << 2100)		/* operands stay far below the vector width */
+#define BN_LIVE(a, who) __CPROVER_assert((a) != NULL && g_bn.alive[(a)->id], who ": operand is a live BIGNUM (no use after free)")
+
+/*
+ * Failure schedule.  g_bn.fail_at == BN_FAIL_ANY: every constructor / operation / entropy call fails or not,
+ * independently (fully nondeterministic).  g_bn.fail_at == BN_FAIL_NONE: none fails.  g_bn.fail_at == k >= 0:
+ * the k-th such call (counted by g_bn.opcount) is the FIRST one to fail, later ones fail or not arbitrarily.
+ * The union over k of the scheduled behaviours is exactly the fully nondeterministic behaviour; a harness that
+ * fixes k per instance (matrix) therefore splits the proof by the position of the first failure -- a complete
+ * case split provided the BN_FAIL_NONE instance also shows opcount <= number of instances (it asserts that).
+ * It keeps each instance a single path up to the failure, which is what makes 2112-bit values affordable.
+ */
+int
+bn_sched_fail(void)
+{
+	int k = g_bn.opcount++;
+
+	if (g_bn.fail_at == BN_FAIL_ANY)
+		return (nondet_int() != 0);
+	if (g_bn.fail_at == BN_FAIL_NONE || k < g_bn.fail_at)
+		return (0);
+	if (k == g_bn.fail_at)
+		return (1);
+	return (nondet_int() != 0);
+}
 
 static int
 bn_mayfail(void)
 {
 
-	if (nondet_int()) {
+	if (bn_sched_fail()) {
 		g_bn.nfail++;
 		return (1);
 	}
@@ -34,30 +53,31 @@ bn_mayfail(void)
 BIGNUM *
 BN_new(void)
 {
-	BIGNUM * a;
+	int k;
 
 	if (bn_mayfail())
 		return (NULL);
-	a = malloc(sizeof(BIGNUM));
-	__CPROVER_assume(a != NULL);
-	a->v = 0;
-	a->neg = 0;
-	a->tainted = 0;
+	BN_BOUND(g_bn.nalloc >= 0 && g_bn.nalloc < BN_MAXOBJ, "BIGNUM table full");
+	k = g_bn.nalloc++;
+	g_bn.obj[k].id = k;
+	g_bn.v[k] = 0;
+	g_bn.neg[k] = 0;
+	g_bn.tainted[k] = 0;
+	g_bn.alive[k] = 1;
 	g_bn.live++;
-	return (a);
+	return (&g_bn.obj[k]);
 }
 
 BN_CTX *
 BN_CTX_new(void)
 {
-	BN_CTX * c;
 
 	if (bn_mayfail())
 		return (NULL);
-	c = malloc(sizeof(BN_CTX));
-	__CPROVER_assume(c != NULL);
+	BN_BOUND(!g_bn.ctx_alive, "one BN_CTX at a time");
+	g_bn.ctx_alive = 1;
 	g_bn.live++;
-	return (c);
+	return (&g_bn.ctx);
 }
 
 void
@@ -66,8 +86,9 @@ BN_CTX_free(BN_CTX * c)
 
 	if (c == NULL)
 		return;
+	__CPROVER_assert(c == &g_bn.ctx && g_bn.ctx_alive, "BN_CTX_free: a live BN_CTX (no double free)");
+	g_bn.ctx_alive = 0;
 	g_bn.live--;
-	free(c);
 }
 
 void
@@ -76,12 +97,13 @@ BN_free(BIGNUM * a)
 
 	if (a == NULL)
 		return;
+	BN_LIVE(a, "BN_free");
 	/* C20: memory that held the private exponent or the blinding value goes back to the allocator unwiped */
-	if (a->tainted)
+	if (g_bn.tainted[a->id])
 		g_bn.dirty_free++;
-	__CPROVER_assert(!a->tainted, "C20: BN_free() on a bignum derived from the private or blinding value (BN_clear_free required)");
+	__CPROVER_assert(!g_bn.tainted[a->id], "C20: BN_free() on a bignum derived from the private or blinding value (BN_clear_free required)");
+	g_bn.alive[a->id] = 0;
 	g_bn.live--;
-	free(a);
 }
 
 void
@@ -90,12 +112,12 @@ BN_clear_free(BIGNUM * a)
 
 	if (a == NULL)
 		return;
+	BN_LIVE(a, "BN_clear_free");
 	/* assumed: OpenSSL zeroes the limbs before releasing them */
-	a->v = 0;
-	a->neg = 0;
-	a->tainted = 0;
+	g_bn.v[a->id] = 0;
+	g_bn.tainted[a->id] = 0;
+	g_bn.alive[a->id] = 0;
 	g_bn.live--;
-	free(a);
 }
 
 BIGNUM *
@@ -104,17 +126,20 @@ BN_bin2bn(const unsigned char * s, int len, BIGNUM * ret)
 	bn_val_t v = 0;
 	int i;
 
-	__CPROVER_assert(len >= 0 && len <= BN_VAL_BYTES - 8, "MODEL-BOUND bn_model: BN_bin2bn length");
+	__CPROVER_assert(len >= 0 && len <= 256, "MODEL-BOUND bn_model: BN_bin2bn length");
 	if (ret == NULL) {
 		if ((ret = BN_new()) == NULL)
 			return (NULL);
-	} else if (bn_mayfail())
-		return (NULL);
+	} else {
+		BN_LIVE(ret, "BN_bin2bn");
+		if (bn_mayfail())
+			return (NULL);
+	}
 	for (i = 0; i < len; i++)
 		v = (v << 8) | (bn_val_t)s[i];
-	ret->v = v;
-	ret->neg = 0;
-	ret->tainted = (s == g_bn_secret_priv || s == g_bn_secret_rand);
+	g_bn.v[ret->id] = v;
+	g_bn.neg[ret->id] = 0;
+	g_bn.tainted[ret->id] = (s == g_bn.secret_priv || s == g_bn.secret_rand);
 	return (ret);
 }
 
@@ -122,46 +147,53 @@ int
 BN_set_word(BIGNUM * a, BN_ULONG w)
 {
 
+	BN_LIVE(a, "BN_set_word");
 	if (bn_mayfail())
 		return (0);
-	a->v = (bn_val_t)w;
-	a->neg = 0;
-	a->tainted = 0;
+	g_bn.v[a->id] = (bn_val_t)w;
+	g_bn.neg[a->id] = 0;
+	g_bn.tainted[a->id] = 0;
 	return (1);
 }
 
 int
 BN_add(BIGNUM * r, const BIGNUM * a, const BIGNUM * b)
 {
-	bn_val_t av = a->v, bv = b->v;
-	int t = a->tainted || b->tainted;
+	bn_val_t av, bv;
+	int t;
 
-	BN_BOUND(!a->neg && !b->neg && av < BN_CAP && bv < BN_CAP, "BN_add operands non-negative and in range");
+	BN_LIVE(r, "BN_add"); BN_LIVE(a, "BN_add"); BN_LIVE(b, "BN_add");
+	av = BN_VAL(a); bv = BN_VAL(b);
+	t = g_bn.tainted[a->id] || g_bn.tainted[b->id];
+	BN_BOUND(!g_bn.neg[a->id] && !g_bn.neg[b->id] && av < BN_CAP && bv < BN_CAP, "BN_add operands non-negative and in range");
 	if (bn_mayfail())
 		return (0);
-	r->v = av + bv;
-	r->neg = 0;
-	r->tainted = t;
+	g_bn.v[r->id] = av + bv;
+	g_bn.neg[r->id] = 0;
+	g_bn.tainted[r->id] = t;
 	return (1);
 }
 
 int
 BN_sub(BIGNUM * r, const BIGNUM * a, const BIGNUM * b)
 {
-	bn_val_t av = a->v, bv = b->v;
-	int t = a->tainted || b->tainted;
+	bn_val_t av, bv;
+	int t;
 
-	BN_BOUND(!a->neg && !b->neg && av < BN_CAP && bv < BN_CAP, "BN_sub operands non-negative and in range");
+	BN_LIVE(r, "BN_sub"); BN_LIVE(a, "BN_sub"); BN_LIVE(b, "BN_sub");
+	av = BN_VAL(a); bv = BN_VAL(b);
+	t = g_bn.tainted[a->id] || g_bn.tainted[b->id];
+	BN_BOUND(!g_bn.neg[a->id] && !g_bn.neg[b->id] && av < BN_CAP && bv < BN_CAP, "BN_sub operands non-negative and in range");
 	if (bn_mayfail())
 		return (0);
 	if (av >= bv) {
-		r->v = av - bv;
-		r->neg = 0;
+		g_bn.v[r->id] = av - bv;
+		g_bn.neg[r->id] = 0;
 	} else {
-		r->v = bv - av;
-		r->neg = 1;
+		g_bn.v[r->id] = bv - av;
+		g_bn.neg[r->id] = 1;
 	}
-	r->tainted = t;
+	g_bn.tainted[r->id] = t;
 	return (1);
 }
 
@@ -169,52 +201,57 @@ static bn_val_t
 bn_abstract(int op, const BIGNUM * a, const BIGNUM * b, const BIGNUM * m)
 {
 	bn_val_t out = nondet_bn_val();
+	size_t k = g_bn.ncalls;
 
-	BN_BOUND(g_bn.ncalls < BN_LOGN, "log of abstract operations full");
-	BN_BOUND(!m->neg && m->v != 0, "modulus positive");
-	__CPROVER_assume(out < m->v);
-	g_bn.log[g_bn.ncalls].op = op;
-	g_bn.log[g_bn.ncalls].a = a->v;
-	g_bn.log[g_bn.ncalls].b = b->v;
-	g_bn.log[g_bn.ncalls].m = m->v;
-	g_bn.log[g_bn.ncalls].out = out;
-	g_bn.ncalls++;
+	BN_BOUND(k < BN_LOGN, "log of abstract operations full");
+	BN_BOUND(!g_bn.neg[m->id] && BN_VAL(m) != 0, "modulus positive");
+	__CPROVER_assume(out < BN_VAL(m));
+	g_bn.log[k].op = op;
+	g_bn.log[k].a = BN_VAL(a);
+	g_bn.log[k].b = BN_VAL(b);
+	g_bn.log[k].m = BN_VAL(m);
+	g_bn.log[k].out = out;
+	g_bn.ncalls = k + 1;
 	return (out);
 }
 
 int
 BN_mod_exp(BIGNUM * r, const BIGNUM * a, const BIGNUM * p, const BIGNUM * m, BN_CTX * ctx)
 {
-	int t = a->tainted || p->tainted || m->tainted;
+	int t;
 
-	__CPROVER_assert(ctx != NULL, "BN_mod_exp: a BN_CTX is supplied");
+	BN_LIVE(r, "BN_mod_exp"); BN_LIVE(a, "BN_mod_exp"); BN_LIVE(p, "BN_mod_exp"); BN_LIVE(m, "BN_mod_exp");
+	__CPROVER_assert(ctx == &g_bn.ctx && g_bn.ctx_alive, "BN_mod_exp: a live BN_CTX is supplied");
 	/* obligations of the caller (BN_mod_exp(3): negative exponents are an error) */
-	__CPROVER_assert(!p->neg, "C10: the exponent handed to BN_mod_exp is non-negative");
-	__CPROVER_assert(!a->neg, "C10: the base handed to BN_mod_exp is non-negative");
+	__CPROVER_assert(!g_bn.neg[p->id], "C10: the exponent handed to BN_mod_exp is non-negative");
+	__CPROVER_assert(!g_bn.neg[a->id], "C10: the base handed to BN_mod_exp is non-negative");
+	t = g_bn.tainted[a->id] || g_bn.tainted[p->id] || g_bn.tainted[m->id];
 	if (bn_mayfail()) {
-		r->tainted = r->tainted || t;
+		g_bn.tainted[r->id] = g_bn.tainted[r->id] || t;
 		return (0);
 	}
-	r->v = bn_abstract(BN_OP_MODEXP, a, p, m);
-	r->neg = 0;
-	r->tainted = t;
+	g_bn.v[r->id] = bn_abstract(BN_OP_MODEXP, a, p, m);
+	g_bn.neg[r->id] = 0;
+	g_bn.tainted[r->id] = t;
 	return (1);
 }
 
 int
 BN_mod_mul(BIGNUM * r, const BIGNUM * a, const BIGNUM * b, const BIGNUM * m, BN_CTX * ctx)
 {
-	int t = a->tainted || b->tainted || m->tainted;
+	int t;
 
-	__CPROVER_assert(ctx != NULL, "BN_mod_mul: a BN_CTX is supplied");
-	__CPROVER_assert(!a->neg && !b->neg, "C10: the factors handed to BN_mod_mul are non-negative");
+	BN_LIVE(r, "BN_mod_mul"); BN_LIVE(a, "BN_mod_mul"); BN_LIVE(b, "BN_mod_mul"); BN_LIVE(m, "BN_mod_mul");
+	__CPROVER_assert(ctx == &g_bn.ctx && g_bn.ctx_alive, "BN_mod_mul: a live BN_CTX is supplied");
+	__CPROVER_assert(!g_bn.neg[a->id] && !g_bn.neg[b->id], "C10: the factors handed to BN_mod_mul are non-negative");
+	t = g_bn.tainted[a->id] || g_bn.tainted[b->id] || g_bn.tainted[m->id];
 	if (bn_mayfail()) {
-		r->tainted = r->tainted || t;
+		g_bn.tainted[r->id] = g_bn.tainted[r->id] || t;
 		return (0);
 	}
-	r->v = bn_abstract(BN_OP_MODMUL, a, b, m);
-	r->neg = 0;
-	r->tainted = t;
+	g_bn.v[r->id] = bn_abstract(BN_OP_MODMUL, a, b, m);
+	g_bn.neg[r->id] = 0;
+	g_bn.tainted[r->id] = t;
 	return (1);
 }
 
@@ -226,11 +263,14 @@ BN_mod_mul(BIGNUM * r, const BIGNUM * a, const BIGNUM * b, const BIGNUM * m, BN_
 int
 BN_num_bits(const BIGNUM * a)
 {
+	bn_val_t v;
 	int i, bits = 0;
 
-	BN_BOUND(a->v < ((bn_val_t)1 << (8 * BN_OUT_BYTES)), "BN_num_bits operand below 2^2056");
-	for (i = 0; i < 0/*EXPERIMENT*/; i++) {
-		uint8_t byte = (uint8_t)((a->v >> (8 * i)) & 0xff);
+	BN_LIVE(a, "BN_num_bits");
+	v = BN_VAL(a);
+	BN_BOUND(v < ((bn_val_t)1 << (8 * BN_OUT_BYTES)), "BN_num_bits operand below 2^2056");
+	for (i = 0; i < BN_OUT_BYTES; i++) {
+		uint8_t byte = (uint8_t)((v >> (8 * i)) & 0xff);
 		if (byte != 0) {
 			int top = 0, k;
 			for (k = 0; k < 8; k++)
@@ -242,17 +282,21 @@ BN_num_bits(const BIGNUM * a)
 	return (bits);
 }
 
-/* exact: big-endian magnitude in exactly BN_num_bytes(a) bytes, returns that count */
+/*
+ * exact: big-endian magnitude in exactly BN_num_bytes(a) bytes, returns that count.  Written as BN_OUT_BYTES
+ * guarded single-byte stores (byte j counted from the least significant end goes to to[n - 1 - j]) rather than
+ * one memcpy of symbolic length: same effect, far cheaper for the verifier.
+ */
 int
 BN_bn2bin(const BIGNUM * a, unsigned char * to)
 {
 	int n = BN_num_bytes(a);
-	uint8_t be[BN_OUT_BYTES];	/* the value, most significant byte first, in BN_OUT_BYTES bytes */
+	bn_val_t v = BN_VAL(a);
 	int j;
 
 	for (j = 0; j < BN_OUT_BYTES; j++)
-		be[BN_OUT_BYTES - 1 - j] = (uint8_t)((a->v >> (8 * j)) & 0xff);
-	/*EXPERIMENT*/
+		if (j < n)
+			to[n - 1 - j] = (uint8_t)((v >> (8 * j)) & 0xff);
 	return (n);
 }
 
